@@ -181,6 +181,14 @@ EXPR_TARGETS = [
 # synchronous fn (prologue/epilogue hand-written)
 BLOCK_TARGETS = [
     dict(
+        name="outquery_adapt_timeout", file="crates/erbium-core/src/dns/outquery.rs",
+        header=r"async\s+fn\s+send_udp\s*\([^{]*\{",
+        start=r"if\s+attempts\.len\(\)\s*>\s*1\s*\{", end=r"Ok\(pkt\)",
+        signature="pub fn lifted_outquery_adapt_timeout(n_attempts: usize, dur: Duration, initial_timeout: Duration, timeout_cell: &mut Duration)",
+        prologue="", epilogue="",
+        rewrites=[(r"attempts\.len\(\)", "n_attempts"), (r"DNS_TIMEOUT\.write\(\)\.await", "timeout_cell")],
+    ),
+    dict(
         name="outquery_accept_reply", file="crates/erbium-core/src/dns/outquery.rs",
         header=r"async\s+fn\s+handle_query_internal\s*\([^{]*\{",
         start=r"let\s+out_reply\s*;", end=r"if\s+out_reply\.qid\s*!=\s*id",
